@@ -26,7 +26,7 @@ from dataclasses import dataclass, field, replace as dc_replace
 from typing import Callable
 
 from core.guards import FALSE, TRUE, Formula, atom, atoms_of, evaluate, f_and, f_not, f_or, show
-from core.loader import AnalysisError, ClassInfo, FuncInfo, Repo, norm, own_nodes
+from core.loader import AnalysisError, ClassInfo, FuncInfo, Repo, header, norm, own_nodes
 from core.types import members
 
 from .common import dotted, types_of
@@ -291,6 +291,7 @@ class HandlerCtx:
     node: ast.Try
     types: list  # list[list[str]] per handler
     caught: list = field(default_factory=list)  # (handler index, State, exc class)
+    n: int = 0  # the atom `exc#<n>.<i>` stands for "handler i was entered because something in the body raised"
 
 
 class _Signal(Exception):
@@ -371,6 +372,7 @@ class Sym:
         self.frames: list[Frame] = []
         self.loop_ctl: list[dict] = []
         self.eager: set[int] = set()  # call nodes whose generator result is consumed completely right away
+        self.handler_swallows: dict[tuple[int, int], bool] = {}  # (try id, handler index) -> the handler can complete without raising
         self._n = 0
         self.notes: list[str] = []
 
@@ -455,6 +457,8 @@ class Sym:
                     return f_not(x.f)
                 if isinstance(x, Opq) and x.kind == "find" and y.value == -1:
                     return atom(f"notfound({x.key})")
+                if isinstance(x, Opq) and x.kind == "len" and x.meta and y.value == 0 and not isinstance(y.value, bool):
+                    return f_not(self.truth(x.meta[0], st))
                 if isinstance(x, Coll) and isinstance(y.value, (list, tuple)) and not y.value:
                     return f_not(self.truth(x, st))
             if isinstance(y, Coll) and isinstance(x, (Opq, Coll)):
@@ -642,6 +646,7 @@ class Sym:
     def emit(self, kind: str, name: str, args: list[Val], recv: Val | None, st: State, ctx: FuncInfo, node: ast.AST, recv_type: tuple = ("unknown",), result: Val | None = None) -> Event:
         hs = tuple(t for h in self.handlers for ts in h.types for t in ts)
         ev = Event(kind, name, tuple(args), recv, tuple(st.path), tuple(self.loops), hs, ctx, node, recv_type, result)
+        ev.handler_entries = tuple((h.n, i, tuple(ts)) for h in self.handlers for i, ts in enumerate(h.types))  # type: ignore[attr-defined]
         self.events.append(ev)
         return ev
 
@@ -660,7 +665,13 @@ class Sym:
         m = getattr(self, "_e_" + type(e).__name__, None)
         if m is None:
             return Opq(f"<{type(e).__name__}:{norm(e, 40)}>")
-        return m(e, st, ctx)
+        try:
+            return m(e, st, ctx)
+        except (AnalysisError, RecursionError):
+            raise
+        except Exception as ex:  # noqa: BLE001  - an expression shape the interpreter does not model: unknown value
+            self.notes.append(f"{ctx.qualname}: `{norm(e, 50)}` not modelled ({type(ex).__name__}: {ex})")
+            return Opq(f"<{norm(e, 40)}>#{self.fresh()}")
 
     def _e_Constant(self, e, st, ctx):
         return Const(e.value)
@@ -815,6 +826,11 @@ class Sym:
             if ia is not None and ib is not None:
                 return self.new_coll(st, st.store[key(a)].kind, ia + ib)
         deps = self.deps(a, st) | self.deps(b, st)
+        if isinstance(e.op, ast.Sub) and self.complete_of(a, st) is not None:
+            removed = self.exact_items(b, st)
+            if removed is not None and all(isinstance(x, Opq) and x.kind == "param" for x, _c in removed):
+                # P - {s}: every element of P except (elements equal to) the scalar parameter s
+                return self.new_coll(st, "set", [], exact=False, complete_of=self.complete_of(a, st), deps=self.deps(a, st))
         if isinstance(a, Coll) or isinstance(b, Coll):
             items = (self.exact_items(a, st) or []) + (self.exact_items(b, st) or []) if isinstance(e.op, (ast.Add, ast.BitOr)) else []
             return self.new_coll(st, "list" if isinstance(e.op, ast.Add) else "set", items, exact=False, deps=deps)
@@ -1541,7 +1557,14 @@ class Sym:
         m = getattr(self, "_s_" + type(s).__name__, None)
         if m is None:
             return st
-        return m(s, st, ctx)
+        try:
+            return m(s, st, ctx)
+        except (AnalysisError, RecursionError):
+            raise
+        except Exception as ex:  # noqa: BLE001  - a statement shape the interpreter does not model: forget what it may have changed
+            self.notes.append(f"{ctx.qualname}: `{header(s)[:60]}` not modelled ({type(ex).__name__}: {ex})")
+            self.havoc([s], st, ctx, self.fresh())
+            return st
 
     def _s_Expr(self, s, st, ctx):
         self.eval(s.value, st, ctx)
@@ -1807,7 +1830,8 @@ class Sym:
                 types.append(["<bare>"])
             else:
                 types.append([(self.repo.resolve_name(ctx.module, x) or dotted(x) or norm(x)).split(".")[-1] for x in (h.type.elts if isinstance(h.type, ast.Tuple) else [h.type])])
-        hc = HandlerCtx(s, types)
+        n = self.fresh()
+        hc = HandlerCtx(s, types, n=n)
         self.handlers.append(hc)
         try:
             end = self.block(s.body, st.fork(), ctx)
@@ -1816,19 +1840,24 @@ class Sym:
         if end is not None and s.orelse:
             end = self.block(s.orelse, end, ctx)
         outs = [(end, TRUE)] if end is not None else []
-        n = self.fresh()
         for i, h in enumerate(s.handlers):
             # entered from an explicit raise that was caught, or from an exception raised by something opaque
             starts = [c_st for (hi, c_st, _n) in hc.caught if hi == i]
             generic = st.fork(atom(f"exc#{n}.{i}"))
             self.havoc(s.body, generic, ctx, n)
             starts.append(generic)
+            fr = self.frames[-1]
+            before = (len(fr.returns), len([o for o in self.outcomes if o.kind in ("return", "verdict")]))
+            falls = False
             for hs in starts:
                 if h.name:
                     hs.vars[h.name] = Opq(f"{h.name}#{n}", kind="exception", meta=tuple(types[i]))
                 r = self.block(h.body, hs, ctx)
                 if r is not None:
                     outs.append((r, TRUE))
+                    falls = True
+            after = (len(fr.returns), len([o for o in self.outcomes if o.kind in ("return", "verdict")]))
+            self.handler_swallows[(n, i)] = falls or after != before
         res = self.merge(outs, st)
         if res is not None and s.finalbody:
             res = self.block(s.finalbody, res, ctx)
